@@ -182,6 +182,7 @@ pub fn cfg_faults() -> GenCfg {
 pub fn replay(rep: &Report, stage: &str, j: &serde_json::Value) -> i32 {
     match stage {
         "invariants-faults" => crate::registry::replay_stage(rep, &C04 { cfg: cfg_faults(), name: "invariants-faults" }, j),
+        "many-containers" => crate::registry::replay_stage(rep, &super::c14::ManyContainers, j),
         _ => crate::registry::replay_stage(rep, &C04 { cfg: cfg_plain(), name: "invariants" }, j),
     }
 }
@@ -198,4 +199,8 @@ pub fn run(rep: &Report) {
     let faults = C04 { cfg: cfg_faults(), name: "invariants-faults" };
     rep.run_regressions(&faults);
     rep.explore(&faults, rep.tier.pick(12_000, 100_000), 600);
+    // the same invariants on a state large enough for the incremental (index / val_index driven) rebuild paths, which
+    // the short histories above never enter: C14's many-containers stage (bulk load of >1000 containers, directed
+    // age-ordered unions, invariants after every command) is run here too
+    rep.explore(&super::c14::ManyContainers, rep.tier.pick(80, 2500), 80);
 }
